@@ -427,6 +427,55 @@ def ob_default(chk, P, maxlen):
         ob.absorb(ex)
 
 
+def ob_split_join(chk, P, maxlen):
+    with chk.obligation('split-join/strings', 'split cuts the input at every (leftmost, non-overlapping) occurrence of a non-empty separator and returns the pieces in order (the empty string gives the empty array); '
+                        'joining the pieces with the same separator gives the input back',
+                        {'input': f'0..{maxlen} characters, each any Unicode scalar value', 'separator': '1..2 characters'}) as ob:
+        ex = Executor(P, models_with([])); ex.seed = chk.seed; ex.max_steps = 40000
+        f_split = P.find_method('SplitFilter', 'evaluate', 'Filter', 'lib')
+        f_join = P.find_method('JoinFilter', 'evaluate', 'Filter', 'lib', where='stdlib/filters/array.rs')
+        for n in range(maxlen + 1):
+            for pn in (1, 2):
+                st = State()
+                cs = sym_string(st, n); pat = sym_string(st, pn, 'p')
+                sargs = Adt('SplitArgs', None, [expr_stub(str_value(pat), 'pattern')], ['pattern'])
+                for s2, kind, val in ex.run(f_split, [st.ref(Adt('SplitFilter', None, [sargs], ['args'])), st.ref(str_value(cs)), st.ref(Opaque(('RT',)))], st):
+                    ob.paths += 1; ob.reached()
+                    def report(role, what, m):
+                        s = model_string(m, cs); pv = model_string(m, pat)
+                        exp = '[' + ']['.join(s.split(pv)) + ']' if s else ''
+                        ob.violation(role, f'{what}: {s!r} | split: {pv!r}', {'input': s, 'separator': pv},
+                                     {'kind': 'template', 'template': "{% assign r = s | split: p %}{% for x in r %}[{{ x }}]{% endfor %}|{{ s | split: p | join: p }}", 'globals': {'s': s, 'p': pv}},
+                                     lambda r, e=exp, s=s: r.get('outcome') != 'ok' or r.get('output') != e + '|' + s)
+                    if kind != 'ret' or val.variant != 'Ok':
+                        report('split/fails', f'split ends with {kind} {val}', ob.decide(ex, s2.conds, z3.BoolVal(True))); continue
+                    arr = s2.deref_all(val.items[0])
+                    if not (isinstance(arr, Adt) and arr.variant == 'Array'):
+                        report('split/not-an-array', f'split returns {arr}', ob.decide(ex, s2.conds, z3.BoolVal(True))); continue
+                    items = [s2.deref_all(x) for x in s2.deref_all(arr.items[0]).items]
+                    pieces = []
+                    for it in items:
+                        inner = it.items[0].items[0]
+                        pieces.append(list(s2.deref_all(inner.items[0]).chars))
+                    def build(ref_pieces):
+                        if n == 0: return z3.BoolVal(len(pieces) == 0)
+                        if len(ref_pieces) != len(pieces): return z3.BoolVal(False)
+                        return z3.And(*[eq_chars(a, list(b)) for a, b in zip(pieces, ref_pieces)])
+                    post = scan_spec(list(cs), list(pat), build) if n > 0 else z3.BoolVal(len(pieces) == 0)
+                    m = ob.decide(ex, s2.conds, z3.Not(post))
+                    if m is not None:
+                        report('split/wrong-pieces', f'split returns {[model_string(m, p_) for p_ in pieces]}', m); continue
+                    # law: join with the same separator is the identity
+                    jargs = Adt('JoinArgs', None, [Some(expr_stub(str_value(pat), 'separator'))], ['separator'])
+                    for s3, k3, v3 in ex.run(f_join, [s2.ref(Adt('JoinFilter', None, [jargs], ['args'])), s2.ref(arr), s2.ref(Opaque(('RT',)))], s2.clone()):
+                        ob.paths += 1
+                        res = result_string(s3, v3) if k3 == 'ret' else None
+                        m = ob.decide(ex, s3.conds, z3.Not(eq_chars(res, list(cs))) if res is not None else z3.BoolVal(True))
+                        if m is not None: report('split-join/not-identity', f'split then join gives {model_string(m, res) if res is not None else v3}', m)
+                ob.sample({'len': n, 'separator_len': pn})
+        ob.absorb(ex)
+
+
 def token_of(v):
     return value_token(v)
 
@@ -493,4 +542,5 @@ def run(chk):
     ob_simple_filters(chk, P, 5 if chk.tier == 'quick' else 6)
     ob_size(chk, P, 4)
     ob_default(chk, P, 3)
+    ob_split_join(chk, P, 4 if chk.tier == 'quick' else 5)
     ob_filter_chain(chk, P)
